@@ -459,7 +459,20 @@ def check_bond(group):
                 var["graph_object_used_before_with_another_structure"] = True
         # --- percolate_network -------------------------------------------------
         entry = "percolate_network"
-        leaves = scripted.explore(lambda: EoN.percolate_network(G, p), max_leaves=4096, max_branches=64)
+        try:
+            leaves = scripted.explore(lambda: EoN.percolate_network(G, p), max_leaves=4096, max_branches=64)
+        except scripted.Unmodelled as ex:
+            # not a finite decision tree (e.g. log(1-U)): the outcome distribution is decided with the real random source
+            def one_h():
+                H = EoN.percolate_network(G, p)
+                if set(H.nodes()) != set(G.nodes()):
+                    return ("nodes", tuple(sorted(map(repr, H.nodes()))))
+                return frozenset(frozenset((inv[a], inv[b])) for a, b in H.edges())
+            _settle_bond(out, entry, one_h, {he: w for he, (w, sc_) in spec_w.items()}, "p=%d/%d" % (num, den), g, sc0, var, ex)
+            leaves = []
+            spec_w_judged = {}
+        else:
+            spec_w_judged = spec_w
         seen = {}
         for lf in leaves:
             out.evals += 1
@@ -491,7 +504,7 @@ def check_bond(group):
                 out.notes.append("percolate_network does not test each edge with exactly one random() draw "
                                  "(%d draws for %d edges, other draws %r); only the outcome distribution is judged"
                                  % (draws, m, other))
-        for he, (w, sc) in spec_w.items():
+        for he, (w, sc) in spec_w_judged.items():
             got = seen.get(he, 0.0)
             if got != w:
                 out.bad(entry, "outcome probability", "p=%d/%d" % (num, den),
@@ -500,9 +513,19 @@ def check_bond(group):
                 break
         # --- estimate_SIR_prob_size --------------------------------------------
         entry = "estimate_SIR_prob_size"
-        leaves = scripted.explore(lambda: EoN.estimate_SIR_prob_size(G, p), max_leaves=4096, max_branches=64)
+        settled = False
+        try:
+            leaves = scripted.explore(lambda: EoN.estimate_SIR_prob_size(G, p), max_leaves=4096, max_branches=64)
+        except scripted.Unmodelled as ex:
+            def one_s():
+                r = EoN.estimate_SIR_prob_size(G, p)
+                why = answer_problem(r, n, [[s_, s_] for s_ in range(1, n + 1)])
+                return ("bad", why) if why else int(round(float(r[0]) * n))
+            _settle_bond(out, entry, one_s, spec_dist, "p=%d/%d" % (num, den), g, sc0, var, ex)
+            leaves = []
+            settled = True
         dist = {}
-        ok = True
+        ok = not settled
         for lf in leaves:
             out.evals += 1
             if lf.error is not None:
@@ -525,6 +548,23 @@ def check_bond(group):
                     "graph %r, p=%d/%d: P(result*N = s) is %r, the specification (bond percolation, then largest connected "
                     "component) gives %r" % (g, num, den, sorted(dist.items()), sorted(spec_dist.items())), sc0, var)
     return out
+
+
+BOND_SETTLE_RUNS = 20000
+
+
+def _settle_bond(out, entry, outcome, expected, cls, g, sc0, var, why):
+    from .discrete_b1 import settle_law
+    for q in settle_law(outcome, expected, "%s on graph %r" % (entry, g), nruns=BOND_SETTLE_RUNS):
+        kind = q["kind"] if q["kind"].startswith("exception:") else "outcome probability"
+        out.bad(entry, kind.replace("exception:", "raises "), cls, q["detail"], sc0, dict(var, decided="statistically"))
+    out.evals += BOND_SETTLE_RUNS
+    out.bound += 1
+    note = ("%s: the scripted random source cannot follow the implementation (%s); the outcome distribution was decided with %d seeded runs of the "
+            "real random source per scenario against the TLC-emitted weights (probability-0 outcomes exactly, frequencies by a G-test rejected below 1e-9)"
+            % (entry, why, BOND_SETTLE_RUNS))
+    if note not in out.notes:
+        out.notes.append(note)
 
 
 # ----------------------------------------------------------------------------
